@@ -121,6 +121,8 @@ pub use api::*;
 pub use config::{Config, Configurable};
 #[cfg(stam_verif)]
 pub use config::verif_sched::verif_set_yield_hook;
+#[cfg(stam_verif)]
+pub use store::verif_resolve_temp_id;
 pub use datakey::{DataKey, DataKeyHandle};
 pub use datavalue::{DataOperator, DataValue};
 pub use error::StamError;
